@@ -82,6 +82,20 @@ type entSpec struct {
 
 func key(addr []uint) string { return fmt.Sprint(addr) }
 
+// entAddr / featAddr build addresses without the (slow, reflective) helper of the stack.
+func entAddr(addr []uint) []model.AddressEntityType {
+	out := make([]model.AddressEntityType, len(addr))
+	for i, x := range addr {
+		out[i] = model.AddressEntityType(x)
+	}
+	return out
+}
+
+func featAddr(p *world.Peer, addr []uint, feat uint) *model.FeatureAddressType {
+	a := p.Addr
+	return &model.FeatureAddressType{Device: &a, Entity: entAddr(addr), Feature: util.Ptr(model.AddressFeatureType(feat))}
+}
+
 func keyOf(a []model.AddressEntityType) string {
 	out := make([]uint, 0, len(a))
 	for _, x := range a {
@@ -400,7 +414,7 @@ func (m *machine) snapshot(pi int) snap {
 		s.Binds = append(s.Binds, fmt.Sprintf("%s -> local %s #%d", refString(e.ClientFeature.Address()), refString(e.ServerFeature.Address()), e.Id))
 	}
 	for _, b := range m.books[pi] {
-		a := p.FA(b.ent, b.feat)
+		a := featAddr(p, b.ent, b.feat)
 		if m.clients[b.client].HasSubscriptionToRemote(a) {
 			s.Book = append(s.Book, fmt.Sprintf("%s <- subscription of local client #%d", refString(a), b.client))
 		}
@@ -450,7 +464,7 @@ func (m *machine) checkTree(t *rapid.T, pi int, clause, shape, after string) {
 	}
 	// look-ups by address: every address of the domain (and the direct neighbours of the feature ids)
 	for _, addr := range append([][]uint{{0}, {3}, {1, 3}}, addrDomain...) {
-		e := p.Dev.Entity(spine.NewAddressEntityType(addr))
+		e := p.Dev.Entity(entAddr(addr))
 		me := m.trees[pi][key(addr)]
 		if (e != nil) != (me != nil) || (e != nil && keyOf(e.Address().Entity) != key(addr)) {
 			gotS := "nil"
@@ -460,7 +474,7 @@ func (m *machine) checkTree(t *rapid.T, pi int, clause, shape, after string) {
 			world.Fail(t, fmt.Sprintf("C06/%s-lookup/%s", clause, shape), "after %s Entity(%s) of peer%d returns %s, announced: %v%s", after, key(addr), pi+1, gotS, me != nil, m.history())
 		}
 		for id := uint(0); id <= 5; id++ {
-			f := p.Dev.FeatureByAddress(p.FA(addr, id))
+			f := p.Dev.FeatureByAddress(featAddr(p, addr, id))
 			var mf *featSpec
 			if me != nil {
 				for i := range me.Feats {
@@ -541,6 +555,20 @@ func (m *machine) settle(t *rapid.T, want []string, clause, shape, after string)
 
 // ---- operations that create state for the removal cascade
 
+// budget: state that no later message can observe is not worth creating; once the message budget
+// is used the remaining steps of the history are spent in idle.
+func (m *machine) budget(t *rapid.T) {
+	if m.msgs >= m.maxMsgs {
+		t.Skip("message budget used")
+	}
+}
+
+func (m *machine) idle(t *rapid.T) {
+	if m.msgs < m.maxMsgs {
+		t.Skip("message budget not used yet")
+	}
+}
+
 type featRef struct {
 	ent []uint
 	f   featSpec
@@ -574,6 +602,7 @@ func (m *machine) localServersOf(ft model.FeatureTypeType) []api.FeatureLocalInt
 
 // peerCall: a client feature of the peer subscribes or binds to a local server feature.
 func (m *machine) peerCall(t *rapid.T, bind bool) {
+	m.budget(t)
 	pi := rapid.IntRange(0, len(m.w.Peers)-1).Draw(t, "peer")
 	cands := m.featuresOf(pi, func(f featSpec) bool { return f.Role != model.RoleTypeServer })
 	if len(cands) == 0 {
@@ -602,6 +631,7 @@ func (m *machine) peerBind(t *rapid.T)      { m.peerCall(t, true) }
 // localClient: a local client feature subscribes / binds to a server feature of the peer, which
 // the stack remembers per remote feature address.
 func (m *machine) localClient(t *rapid.T) {
+	m.budget(t)
 	pi := rapid.IntRange(0, len(m.w.Peers)-1).Draw(t, "peer")
 	cands := m.featuresOf(pi, func(f featSpec) bool { return f.Role != model.RoleTypeClient })
 	if len(cands) == 0 {
@@ -755,13 +785,13 @@ func (m *machine) drawAnnounced(t *rapid.T, pi int, reply bool) ([]entry, delta)
 		k := key(addr)
 		lbl := fmt.Sprintf("a%d", i)
 		if cur := tr[k]; cur != nil {
-			if reply || rapid.IntRange(0, 2).Draw(t, lbl+".keep") != 0 {
+			if reply || rapid.IntRange(0, 2).Draw(t, lbl+".drop") != 2 {
 				entries = append(entries, entry{Spec: *clone(*cur)})
 			} else {
 				d.disappeared = append(d.disappeared, k)
 				delete(tr, k)
 			}
-		} else if rapid.IntRange(0, 3).Draw(t, lbl+".add") == 0 {
+		} else if rapid.IntRange(0, 3).Draw(t, lbl+".add") == 3 {
 			spec := drawEntity(t, addr, lbl)
 			entries = append(entries, entry{Spec: spec})
 			d.appeared = append(d.appeared, k)
@@ -777,9 +807,7 @@ func (m *machine) drawAnnounced(t *rapid.T, pi int, reply bool) ([]entry, delta)
 }
 
 func (m *machine) message(t *rapid.T) {
-	if m.msgs >= m.maxMsgs {
-		t.Skip("message budget used")
-	}
+	m.budget(t)
 	pi := rapid.IntRange(0, len(m.w.Peers)-1).Draw(t, "peer")
 	p := m.w.Peers[pi]
 	kind := "partial"
@@ -908,6 +936,10 @@ func sortedCopy(l []string) []string {
 func describe(entries []entry) string {
 	var out []string
 	for _, en := range entries {
+		if key(en.Spec.Addr) == key([]uint{0}) {
+			out = append(out, "[0] DeviceInformation <0:NodeManagement/special>")
+			continue
+		}
 		switch en.Change {
 		case chRemoved:
 			ty := string(en.Spec.Type)
@@ -1001,7 +1033,7 @@ func TestRemoteTree(t *testing.T) {
 		for i := range m.w.Peers {
 			var ents []entSpec
 			for j, addr := range addrDomain {
-				if rapid.IntRange(0, 2).Draw(t, fmt.Sprintf("p%d.initial%d", i+1, j)) == 0 {
+				if rapid.IntRange(0, 2).Draw(t, fmt.Sprintf("p%d.initial%d", i+1, j)) == 2 {
 					ents = append(ents, drawEntity(t, addr, fmt.Sprintf("p%d.i%d", i+1, j)))
 				}
 			}
@@ -1018,6 +1050,7 @@ func TestRemoteTree(t *testing.T) {
 			"peerSubscribe": m.peerSubscribe,
 			"peerBind":      m.peerBind,
 			"localClient":   m.localClient,
+			"idle":          m.idle,
 		})
 
 		// no further event: the handlers run asynchronously, so look once more after a grace period
